@@ -184,7 +184,8 @@ JDeep(line, track) ==
       base == IF obs.out \in {"panic", "crash", "timeout"} THEN {"deep_nocrash"}
               ELSE IF line.levels <= AlwaysAcceptedDepth
                    THEN If(accepted /\ obs.n = line.len, "deep_accept")
-                   ELSE If(accepted \/ IsProto(obs, DEPTH_LIMIT), "deep_reject")
+                   \* beyond 48 levels: accepted (then all of it was read) or a depth-limit protocol error
+                   ELSE If(accepted \/ IsProto(obs, DEPTH_LIMIT), "deep_reject") \cup If(~accepted \/ obs.n = line.len, "deep_accept")
       mono == IF accepted THEN If(track.minrej < 0 \/ line.d < track.minrej, "deep_monotone")
               ELSE If(line.d > track.maxok, "deep_monotone")
       full == IF "in" \in DOMAIN line /\ obs.out \notin {"panic", "crash", "timeout"}
